@@ -64,9 +64,16 @@ bool BasicAuthMiddleware::process(Socket *socket)
             ":", 1, parts
         );
 
-        // Verify credentials
-        if (parts.count() == 2 && verify(parts.at(0), parts.at(1))) {
-            return true;
+        // Verify credentials - only text that survives the conversion to
+        // QString unchanged can be what was registered (the conversion stops
+        // at a NUL byte, skips a byte order mark and replaces invalid UTF-8)
+        if (parts.count() == 2) {
+            QString username = QString::fromUtf8(parts.at(0));
+            QString password = QString::fromUtf8(parts.at(1));
+            if (username.toUtf8() == parts.at(0) && password.toUtf8() == parts.at(1) &&
+                    verify(username, password)) {
+                return true;
+            }
         }
     }
 
